@@ -1,7 +1,7 @@
 ----------------------------- MODULE MC_C06_its -----------------------------
 (* C06 on the token service: trusted-chain changes and ownership transfer need the *)
 (* current owner; every principal as sole authoriser, over role transfer histories.  *)
-EXTENDS ITSMC
+EXTENDS ITSMC, AuthShapes
 VARIABLE st
 MC_Chains == {"ethereum"}
 MC_Accts == {"alice", "its", "gs"}
@@ -20,9 +20,16 @@ Auths == {{p} : p \in People} \cup {{}}
 Acts(s) ==
     {[name |-> n, chain |-> "ethereum", auth |-> au] : n \in {"SetTrusted", "RemoveTrusted"}, au \in Auths}
     \cup {[name |-> "TransferOwnership", new |-> n, auth |-> au] : n \in {"owner0", "bob"}, au \in Auths}
+    \* the migration window of the Upgradable interface is open (hidden from this module): every role check must
+    \* behave exactly as when it is closed
+    \cup {[name |-> "HookOpenWindow"]}
+    \* an entry that names the entry point but keeps only the arguments `keepArgs` (what require_auth_for_args with a subset of the
+    \* arguments would ask for) is not an authorisation of this exact call
+    \cup {[name |-> n, chain |-> "ethereum", auth |-> {}, scopedAuth |-> {s.owner}, keepArgs |-> <<>>] : n \in {"SetTrusted", "RemoveTrusted"}}
+    \cup {[name |-> "TransferOwnership", new |-> "bob", auth |-> {}, scopedAuth |-> {s.owner}, keepArgs |-> <<>>]}
 Init == st = Blank("owner0")
 Next == \E a \in Acts(st) : st' = Apply(st, a).post
-Step(P(_, _, _)) == \A a \in Acts(st) : P(st, a, Apply(st, a))
+Step(P(_, _, _)) == \A a \in Acts(st) : a.name # "HookOpenWindow" => P(st, a, Apply(st, a))
 OnlyHolder(s, a, r) == r.ok => s.owner \in a.auth
 Successor(s, a, r) == r.post.owner = IF a.name = "TransferOwnership" /\ r.ok THEN a.new ELSE s.owner
 Frame(s, a, r) == ~r.ok => r.post = s /\ r.ev = <<>>
